@@ -3,6 +3,7 @@
   the correspondence `generated-code-IR` ties to freshly generated parsers).  Property statements only.
 -/
 import XonshVerif.Model.Peg
+import XonshVerif.Proofs.PegConsume
 namespace XV.Peg
 variable (prog : Prog) (w : Array RTok)
 
@@ -194,5 +195,37 @@ theorem inlined_choice_equiv (g rid mark : Nat) (ps : List Prim) : ∀ (idx : Na
           exact ⟨Or.inr ⟨rfl, hok⟩, rfl, rfl, rfl, rfl, rfl, rfl, rfl, rfl, rfl⟩
         · simp only [hab, Bool.false_eq_true, if_false, hok]
           exact ih g (idx + 1) _
+
+
+/-- **rule_consumes_exactly_its_match.**  For every recogniser program none of whose actions can be falsy (`noFalsyB`, the
+    well-formedness condition of the random grammars; decidable on every IR), every token list, every rule - plain,
+    `memoize`d or `memoize_left_rec` - called with any amount of fuel from the initial state or from any state whose cached
+    failures stand at their own positions: if the rule succeeds with end position `e` the tokenizer is AT `e`, and if it
+    fails the tokenizer is back where the rule was called - a failing rule consumes nothing, a successful one exactly the
+    tokens of its match. -/
+theorem rule_consumes_exactly_its_match (prog : Prog) (w : Array RTok) (hnf : noFalsyB prog = true) (fuel id : Nat) (s : St)
+    (hs : CacheOK s) :
+    (∀ e, (execRule prog w fuel id s).1 = .ok e → (execRule prog w fuel id s).2.pos = e) ∧
+    (∀ m, (execRule prog w fuel id s).1 = .fail m → (execRule prog w fuel id s).2.pos = s.pos) := by
+  have h := (consInv (prog := prog) w (noFalsy_of_B prog hnf) fuel).rule id s hs
+  exact ⟨h.1, h.2.1⟩
+
+/-- ... and the cache invariant it needs holds initially and is kept -/
+theorem cache_invariant_kept (prog : Prog) (w : Array RTok) (hnf : noFalsyB prog = true) (fuel id : Nat) (s : St) (hs : CacheOK s) :
+    CacheOK (execRule prog w fuel id s).2 :=
+  ((consInv (prog := prog) w (noFalsy_of_B prog hnf) fuel).rule id s hs).2.2
+
+/-- Non-vacuity: a left-recursive two-rule program (`e: e '+' t | t ; t: NAME+`) has no falsy action, and on `a + a` its
+    start rule ends at 3, with the tokenizer at 3. -/
+def consProg : Prog := #[
+  { deco := .leftrec, body := .alts [
+      { items := [⟨.call (.rule 0), false⟩, ⟨.call (.expect 7), false⟩, ⟨.call (.rule 1), false⟩], act := .truthy, cut := false },
+      { items := [⟨.call (.rule 1), false⟩], act := .truthy, cut := false }] false false },
+  { deco := .memo, body := .alts [{ items := [⟨.repeated .name, false⟩], act := .truthy, cut := false }] false false }]
+def consW : Array RTok := #[{ ty := .NAME, strId := 1, isKw := false, isSoft := false }, { ty := .OP, strId := 7, isKw := false, isSoft := false },
+  { ty := .NAME, strId := 1, isKw := false, isSoft := false }, { ty := .ENDMARKER, strId := 0, isKw := false, isSoft := false }]
+example : noFalsyB consProg = true := by decide +kernel
+example : (execRule consProg consW 40 0 (St.init consW.size false false)).1 = .ok 3 ∧
+    (execRule consProg consW 40 0 (St.init consW.size false false)).2.pos = 3 := by decide +kernel
 
 end XV.Peg
